@@ -511,6 +511,7 @@ class MemNet:
         self._ids = 0
         self._port = 40000
         self.io_order = None        # fn(list[MemTransport]) -> list
+        self.on_connect = None      # fn(client_transport, server_transport)
 
     def _next_id(self):
         self._ids += 1
@@ -601,6 +602,8 @@ class MemNet:
         # like a selector loop: connection_made of the accepted side runs
         # from a callback, the connecting side's before create_connection
         # returns
+        if self.on_connect is not None:
+            self.on_connect(ct, st)
         self.loop.call_soon(sp.connection_made, st)
         cp.connection_made(ct)
         return ct, cp
